@@ -1041,6 +1041,9 @@ func (o *Oracle) poll() {
 		inc.lastTerm, inc.lastState = term, state
 	}
 	o.checkHealOutcome()
+	if w.sim.Steps%256 == 0 {
+		o.checkLogMatching()
+	}
 	if w.quiet && !w.finishing {
 		o.checkConvergence()
 	}
